@@ -112,7 +112,7 @@ class C07(Prop):
             noise = {}
             for i in range(1, m):
                 if rng.random() < 0.5:
-                    noise[str(i)] = [rng.choice(["create-hb", "create-other", "delete-ghost", "update-ghost", "insert-ghost"])
+                    noise[str(i)] = [rng.choice(["create-hb", "create-other", "delete-ghost", "update-ghost", "insert-ghost", "other-same-instant", "other-same-instant"])
                                      for _ in range(rng.randint(1, 2))]
             for b in storelib.BACKENDS:
                 # (creating an id that exists is refused by the SQL backends; the memory backend replaces the bucket, which
@@ -166,6 +166,8 @@ class C07(Prop):
                             "twin": "a bucket created in another MemoryStorage object shows up in this one"}
             bucket = ds["hb"]
             steps = []
+            other_extra = []
+            rng_data = lambda k: [LA, LB][k % 2]
             noise = case.get("noise") or {}
             for n_hb, hb in enumerate(case["stream"]):
                 # between two heartbeats other clients may (re-)register their buckets or address buckets that do not
@@ -182,6 +184,11 @@ class C07(Prop):
                             ds.update_bucket("ghost", name="x")
                         elif kind == "insert-ghost":
                             ds.storage_strategy.insert_one("ghost", mk_event([None, T0, 0, LA]))
+                        elif kind == "other-same-instant":
+                            # another watcher stamps the same instants: the other bucket gets an event that starts exactly when
+                            # this bucket's newest event does, written after it
+                            ds["other"].insert(mk_event([None, case["stream"][n_hb - 1][1], 1000, rng_data(n_hb)]))
+                            other_extra.append(1)
                     except Exception:
                         pass
                 heartbeat = mk_event(hb)
@@ -197,7 +204,7 @@ class C07(Prop):
                     steps.append(sorted((ev_tuple(e)[1:] for e in bucket.get(-1))))
             d = storelib.dump(store)
             red = heartbeat_reduce([mk_event(e) for e in case["stream"]], case["pt"])
-            other_same = d["other"] == other_before
+            other_same = d["other"] == other_before if not other_extra else len(d["other"]["events"]) == len(other_before["events"]) + len(other_extra)
             if twin is not None and ([ev_tuple(e) for e in twin["hb2"].get(-1)] != twin_before or "hb" in twin.buckets()):
                 other_same = False
             return {"final": [e[1:] for e in sorted(d["hb"]["events"], key=lambda e: e[1])],
@@ -231,7 +238,10 @@ class C07(Prop):
                 "ids": sorted(e[0] for e in d["hb"]["events"]), "reduce": [e[1:] for e in red]}
 
     def same(self, case, io, mo):
-        return "err" not in mo and io["final"] == mo["final"] and io["ids"] == mo["ids"] and io["reduce"] == mo["reduce"]
+        # (writes of another watcher into the other bucket take ids from the same sequence on the SQL backends: the ids of
+        # this bucket's events are then not the model's, which is run without that traffic)
+        shifted = any("other-same-instant" in v for v in (case.get("noise") or {}).values())
+        return "err" not in mo and io["final"] == mo["final"] and (shifted or io["ids"] == mo["ids"]) and io["reduce"] == mo["reduce"]
 
     def oracle(self, case, out):
         if "err" in out:
